@@ -92,6 +92,8 @@ fn snippet(op: &Value) -> String {
         "setoptind" => format!("OPTIND={a}"),
         "pushd" => format!("pushd {} >/dev/null", dir_of(a)),
         "popd" => "popd >/dev/null".to_string(),
+        // STMP is the temporary directory of the real run (given like BASE); the reference session has no such variable
+        "cleantmp" => "[ -n \"${STMP:-}\" ] && find \"$STMP\" -mindepth 1 -delete; :".to_string(),
         other => tool_error(&format!("unknown op {other}")),
     }
 }
@@ -189,6 +191,7 @@ fn one(id: u64, v: &Value, bash: &Path) -> Value {
         let detached = t["detached"].as_bool().unwrap();
         let mut config = TestCaseConfig::default_markdown();
         config.environment.insert("BASE".into(), work.to_string_lossy().to_string());
+        config.environment.insert("STMP".into(), tmp.to_string_lossy().to_string());
         // `detached: false` written out must mean the same as leaving it out
         if detached { config.detached = Some(true); } else if (id + k as u64) % 2 == 0 && v.get("exec").and_then(|x| x.as_str()) != Some("script") { config.detached = Some(false); }
         for o in t["ops"].as_array().unwrap() {
